@@ -341,6 +341,10 @@ func (s *State) contractCall(call *ssa.Call, sp *FuncSpec, fn *ssa.Function, sig
 	for i, r := range sp.Requires {
 		t, err := pre.evalBool(r.E)
 		if err != nil {
+			if strings.Contains(err.Error(), "unknown identifier") && c.mentionsForeignGhost(r.Src) {
+				// initial condition on the callee's own ghost variables: not a demand on this caller
+				continue
+			}
 			panic(evalErr(fmt.Sprintf("%s:%d: requires of %s: %v", r.File, r.Line, name, err)))
 		}
 		s.obligeExpr(fmt.Sprintf("pre#%d@%s#%d", i+1, short, occ), r.Src, c.posOf(call.Pos()), pre, r.E, fmt.Sprintf("%s:%d: requires of %s", r.File, r.Line, name))
@@ -355,6 +359,9 @@ func (s *State) contractCall(call *ssa.Call, sp *FuncSpec, fn *ssa.Function, sig
 	s.WM = nw
 	// frame
 	for _, m := range sp.Modifies {
+		if c.isForeignGhost(strings.TrimSpace(m), s) {
+			continue
+		}
 		s.havocLocation(pre, m, sp)
 	}
 	// results
@@ -384,6 +391,11 @@ func (s *State) contractCall(call *ssa.Call, sp *FuncSpec, fn *ssa.Function, sig
 	for _, e := range sp.Ensures {
 		t, err := post.evalBool(e.E)
 		if err != nil {
+			if strings.Contains(err.Error(), "unknown identifier") && c.mentionsForeignGhost(e.Src) {
+				// the clause talks about a ghost variable that the function under verification does not declare:
+				// it is irrelevant here (assuming less is sound)
+				continue
+			}
 			panic(evalErr(fmt.Sprintf("%s:%d: ensures of %s: %v", e.File, e.Line, name, err)))
 		}
 		s.assert(t)
@@ -807,4 +819,44 @@ func (s *State) sortSearch(call *ssa.Call, args []Value) ([]*State, bool) {
 func (c *Ctx) inlinable(fn *ssa.Function) bool {
 	p := c.pkgOf(fn)
 	return p != nil && (p.Path() == modPath || strings.HasPrefix(p.Path(), modPath+"/"))
+}
+
+// ghostNames: every ghost variable declared by some contract.
+func (c *Ctx) ghostNames() map[string]bool {
+	if c.allGhosts != nil {
+		return c.allGhosts
+	}
+	c.allGhosts = map[string]bool{}
+	for _, sp := range c.SS.Funcs {
+		for _, g := range sp.GhostVars {
+			c.allGhosts[g.Name] = true
+		}
+	}
+	return c.allGhosts
+}
+
+func (c *Ctx) isForeignGhost(name string, s *State) bool {
+	if _, here := s.Ghost[name]; here {
+		return false
+	}
+	return c.ghostNames()[name]
+}
+
+func (c *Ctx) mentionsForeignGhost(src string) bool {
+	for g := range c.ghostNames() {
+		if strings.Contains(src, g) {
+			if _, here := c.Spec.ghostDeclared()[g]; !here {
+				return true
+			}
+		}
+	}
+	return false
+}
+
+func (sp *FuncSpec) ghostDeclared() map[string]bool {
+	m := map[string]bool{}
+	for _, g := range sp.GhostVars {
+		m[g.Name] = true
+	}
+	return m
 }
